@@ -1050,6 +1050,7 @@ fn main() {
         Some("boundary") => boundary::run(),
         Some("cycles") => boundary::cycles(),
         Some("shapes") => shapes::run(),
+        Some("smallworlds") => shapes::ev::run(),
         Some("run") => {
             let text = std::fs::read_to_string(&args[2]).expect("read ops file");
             print!("{}", header());
